@@ -4,7 +4,7 @@
 # (Mutates /repo temporarily: run only when nothing else is using /repo.)
 cd "$(dirname "$0")/.."
 status=0
-for d in seeded/*/; do
+for d in seeded/${SEEDED_GLOB:-*}/; do
   id=$(basename $d); prop=$(python3 -c "import json;print(json.load(open('$d/meta.json'))['property'])")
   if ! git -C /repo apply $PWD/$d/patch.diff; then echo "$id: patch does not apply"; status=1; continue; fi
   VERIF_SCRATCH_OUTPUT=1 ./check $prop > $d/last_run.txt 2>&1; rc=$?   # evidence/ is not touched
